@@ -7,15 +7,7 @@
 #include "sym.h"
 #include <set>
 namespace sym {
-inline std::vector<int>& rnd_log(){ static std::vector<int> v; return v; }   // rounding variables touched by the current path
-inline double lo_unit_roundoff(){ return 5.9604644775390625e-08; }          // 2^-24
-inline Real rnd(const Real& x){
-  if (x.isConst()) return Real((double)(float)x.val());
-  double xr=(double)(float)x.val(); double dw = x.val()!=0.0 ? xr/x.val()-1.0 : 0.0;
-  Real d = Real::var("rnd_"+std::to_string(x.id), dw);
-  rnd_log().push_back(d.id);
-  return x*(Real(1.0)+d);
-}
+// rnd(), rnd_log(), lo_unit_roundoff(): see sym.h
 struct Lo {
   int id;
   Lo() : id(Real(0.0).id) {}
